@@ -86,7 +86,17 @@ var dsSeq int64
 
 // LoadDataset ingests events into a fresh index with the given layout and returns the index name.
 func LoadDataset(w *kernel.Worker, tag string, events []string, lay Layout, rep *kernel.Report) (string, error) {
+	return LoadDatasetWith(w, tag, events, lay, rep, nil)
+}
+
+// LoadDatasetWith: pre runs once the index name is known, before the first event is ingested.
+func LoadDatasetWith(w *kernel.Worker, tag string, events []string, lay Layout, rep *kernel.Report, pre func(idx string) error) (string, error) {
 	idx := fmt.Sprintf("%s%d", tag, atomic.AddInt64(&dsSeq, 1))
+	if pre != nil {
+		if err := pre(idx); err != nil {
+			return idx, err
+		}
+	}
 	for i, ev := range events {
 		if err := ingestStep(w, 0, idx, []string{ev}); err != nil {
 			return idx, err
